@@ -789,7 +789,10 @@ def line_of(via, op, ref):
         if k == 'ala':
             return 'ala ' + (','.join(rat(x) for x in op[1]) or '-')
         if k == 'aqd':
-            return f'aqd {len(op[1])} ' + (','.join(rat(x) for row in op[1] for x in row) or '-')
+            # direct calls go, alternately, to the operation of `Bqm.step` (sorted insert everywhere) and to the call AS CODED with
+            # its `is_linear()` append branch (`Bqm.addQuadraticFromDenseCoded`, equal by `C04.dense_as_coded_refines`)
+            coded = via == 'd' and sum(1 for row in op[1] for x in row if x != 0) % 2 == 0
+            return f'{"aqdc" if coded else "aqd"} {len(op[1])} ' + (','.join(rat(x) for row in op[1] for x in row) or '-')
         raise AssertionError(k)
     try:
         return f'{via} {body()}'
